@@ -170,3 +170,65 @@ Example C10_premises_hold :
   is_instance_of ts "C" "uima.cas.AnnotationBase" = Ok true /\
   get_type ts "A" = Err ETypeNotFound /\ (exists t, get_type ts "D" = Ok t /\ t_name t = "a.D") /\ contains_type ts "C" false = true.
 Proof. vm_compute. repeat split. eexists. split; reflexivity. Qed.
+
+(* ================================================================================================================
+   Bridge (coq/Bridge.v, BridgeProofs.v): the flattened view `flatten ts : schema` that every heap-level model (Reach,
+   Xmi, XmiLoad, Json, Typecheck, Comparable) takes instead of a TypeSystem answers like the type system itself.
+   For a registered type n: the stored chain sch_anc is n, its supertype, ..., uima.cas.TOP (exactly n and its proper
+   ancestors, nearest first, no repetition: the walk's fuel is never exhausted); Schema.isa on it is what
+   TypeSystem.subsumes, Type.subsumes and TypeSystem.is_instance_of return (none raises); an unregistered name is never
+   an ancestor; Schema.is_primitive is TypeSystem.is_primitive. *)
+From Cassis Require Import Schema Bridge BridgeProofs.
+
+Theorem C10_flatten_faithful : forall ts n t, WFh ts -> find_ty ts n = Some t ->
+  (forall m, In m (sch_anc (flatten ts) n) <-> m = n \/ sbelow ts m n) /\
+  hd EmptyString (sch_anc (flatten ts) n) = n /\ last (sch_anc (flatten ts) n) EmptyString = TOP /\
+  NoDup (sch_anc (flatten ts) n) /\
+  (forall m tm, find_ty ts m = Some tm ->
+     ts_subsumes ts m n = Ok (isa (flatten ts) n m) /\ subsumes_ty ts tm t = Ok (isa (flatten ts) n m) /\
+     (m <> EmptyString -> is_instance_of ts n m = Ok (isa (flatten ts) n m))) /\
+  (forall m, registered ts m = false -> isa (flatten ts) n m = false) /\
+  TS.is_primitive ts n = Ok (Schema.is_primitive (flatten ts) n).
+Proof. exact flatten_faithful. Qed.
+Print Assumptions C10_flatten_faithful.
+
+(* the iff form asked for: isa on the flattened view <-> subsumes = Ok true <-> is_instance_of = Ok true *)
+Theorem C10_isa_flatten_subsumes : forall ts n m tn tm, WFh ts -> find_ty ts n = Some tn -> find_ty ts m = Some tm ->
+  (isa (flatten ts) n m = true <-> ts_subsumes ts m n = Ok true) /\
+  (m <> EmptyString -> (isa (flatten ts) n m = true <-> is_instance_of ts n m = Ok true)).
+Proof. exact isa_flatten_subsumes. Qed.
+Print Assumptions C10_isa_flatten_subsumes.
+
+(* the chain really is the supertype chain, link by link *)
+Theorem C10_flatten_anc_chain : forall ts n t, WFh ts -> find_ty ts n = Some t -> chain ts n (sch_anc (flatten ts) n).
+Proof. exact flatten_anc_chain. Qed.
+Print Assumptions C10_flatten_anc_chain.
+
+(* any arrangement of {c.name for c in T.descendants} = the types the flattened view calls instances of T *)
+Theorem C10_descendants_names_are_types : forall ts T tT types, WFh ts -> find_ty ts T = Some tT ->
+  (forall d, In d types <-> In d (desc_names ts T)) ->
+  forall n, In n types <-> isa (flatten ts) n T = true.
+Proof. exact descendants_names_are_types. Qed.
+Print Assumptions C10_descendants_names_are_types.
+
+(* for every history from TypeSystem(): no premise left *)
+Theorem C10_flatten_faithful_reachable : forall ops n t, let ts := final_ts ops init_ts in find_ty ts n = Some t ->
+  (forall m, In m (sch_anc (flatten ts) n) <-> m = n \/ sbelow ts m n) /\
+  hd EmptyString (sch_anc (flatten ts) n) = n /\ last (sch_anc (flatten ts) n) EmptyString = TOP /\
+  NoDup (sch_anc (flatten ts) n) /\
+  (forall m tm, find_ty ts m = Some tm ->
+     ts_subsumes ts m n = Ok (isa (flatten ts) n m) /\ subsumes_ty ts tm t = Ok (isa (flatten ts) n m) /\
+     (m <> EmptyString -> is_instance_of ts n m = Ok (isa (flatten ts) n m))) /\
+  (forall m, registered ts m = false -> isa (flatten ts) n m = false) /\
+  TS.is_primitive ts n = Ok (Schema.is_primitive (flatten ts) n).
+Proof. exact flatten_faithful_reachable. Qed.
+Print Assumptions C10_flatten_faithful_reachable.
+
+Example C10_flatten_computes :
+  let ops := [OCreateType "a.A" "Annotation" None; OCreateType "a.B" "a.A" None; OCreateType "x.S" "uima.cas.String" None] in
+  let ts := final_ts ops init_ts in
+  sch_anc (flatten ts) "a.B" = ["a.B"; "a.A"; "uima.tcas.Annotation"; "uima.cas.AnnotationBase"; "uima.cas.TOP"] /\
+  isa (flatten ts) "a.B" "a.A" = true /\ isa (flatten ts) "a.A" "a.B" = false /\
+  Schema.is_primitive (flatten ts) "x.S" = true /\ prim_of (flatten ts) "x.S" = Some "uima.cas.String" /\
+  desc_names ts "a.A" = ["a.A"; "a.B"].
+Proof. vm_compute. repeat split. Qed.
